@@ -270,18 +270,18 @@ def run(res, tier, seed, shard, nshards):
             two_connections_case(res, W, random.Random((seed, i).__repr__()), i)
     # the same object connected a second time after its first connection was cut anywhere inside a frame or a message: what the
     # second connection delivers is a function of the second server's bytes only
-    if shard == 1 % nshards:
-        def reuse():
-            for i in range(150 if tier == "quick" else 2500):
+    def reuse():
+        for i in range(150 if tier == "quick" else 2500):
+            if i % nshards == shard:
                 reused_object_case(res, W, random.Random((seed, "reuse", i).__repr__()), i)
-        H.in_sim(reuse, watchdog=600)
+    H.in_sim(reuse, watchdog=600)
     # slow legal traffic on connections set up in other ways (through an HTTP CONNECT proxy, with its own proxy timeout; with a timeout
     # given to connect() only): pauses shorter than the connection's own timeout - or any pause when it has none - lose nothing
-    if shard == 3 % nshards:
-        def slow():
-            for i in range(24 if tier == "quick" else 400):
+    def slow():
+        for i in range(24 if tier == "quick" else 400):
+            if i % nshards == shard:
                 slow_setup_case(res, W, random.Random((seed, "slow", i).__repr__()), i)
-        H.in_sim(slow, watchdog=600)
+    H.in_sim(slow, watchdog=600)
     if shard == 0:
         real_tls_coalescing(res, W)
 
